@@ -174,6 +174,10 @@ func genRound6(r *rand.Rand, thorough bool) []string {
 			if i == 0 {
 				uri, path = "/my/very/deep/page?id=23&param=33", "/my/very/deep/page"
 			}
+			if gun == "http2" && !strings.HasPrefix(uri, "/") {
+				uri, path = "/h2/"+randSeg(r)+"/y/z/w", ""
+				path = uri // (an HTTP/2 client refuses to send a :path without a leading slash)
+			}
 			tag := []string{"", "T", "", "t1"}[i%4]
 			reqs = append(reqs, httpReqTok(tag, uri, path, []string{"s200.bx3", "s404", "s503.bx1"}[i%3]))
 		}
